@@ -30,6 +30,14 @@ CLAIMED["C03"] = dict(cat="proof", ref="DESIGN.md §5 C03, §12",
    note="model==implementation observed by correspondence; the spec-side re-blocking encoder in the harness is trusted glue but is itself checked against the "
         "proven model on every case (a disagreement is a machinery error, not a violation)",
    tech="Lean 4 proof over an inductive spec relation + correspondence on re-blocked encodings, bad indices, prefixes")
+CLAIMED["C14"] = dict(cat="proof", ref="DESIGN.md §5 C14, §12",
+   text="Lean theorems: c14_rabin_eq_spec (the Python loop on unbounded ints = the specification's 64-bit fingerprint64, for every byte string), "
+        "c14_table_eq_bitserial (table-driven = bit-serial CRC by GF(2)-linearity, no bv_decide), c14_hex (16 hex digits, little-endian, decodes back), "
+        "c14_empty, c14_dispatch (unknown name -> ValueError; Java spellings and advertised names -> that digest), c14_congruence; per-run obligation that "
+        "the polynomial literal and the algorithm tables in /repo are the ones the model uses. Implementation compared with an independent bit-serial CRC "
+        "and with hashlib on thousands of texts.",
+   note="hash functions themselves (hashlib) and str.encode are trusted; shake_* (no fixed length) outside the property; model==implementation observed by correspondence",
+   tech="Lean 4 proof (BitVec linearity, decide +kernel on the 256-entry table) + bit-serial reference run against the implementation")
 PENDING = {}
 
 def main():
